@@ -23,7 +23,12 @@ func main() {
 			"revoked nominations, too few candidates, records of another version) on chains with the tip in terms 1..3: every stored record table gives the same verdict for the same "+
 			"block on repeated calls and on fresh instances, the accepted producer per slot is the one an election model written from the records entitles (who wins among equal "+
 			"ballots is not prescribed, only that it is a function of the records), and a failing snapshot read (each key of the election in turn, CreateSnapshot) never makes a "+
-			"block accepted that the fault-free evaluation refuses; (c) single: proposer x public key x signature x id relation x timestamp matrix; (d) pow: IsProofed around every target word, CheckMinerMatch on stub "+
+			"block accepted that the fault-free evaluation refuses; (b3) own-block path of tdpos (a node's own block never passes CheckMinerMatch): real instances, directly and behind "+
+			"PluggableConsensus, for generated configurations / validator sets / local identities (each list position, a non-validator); CompeteMaster with 'now' placed inside a chosen slot of the node "+
+			"(terms 1..4, first / last / any slot of its run), repeated like the miner loop until the node is the producer and on to the hand-over or the next term; before the first and after every call "+
+			"ProcessBeforeMiner for every ms (both ns edges) of the terms 1..target+2: it may grant a timestamp only if the audited schedule entitles the node's own list position there, a block of the node "+
+			"with that timestamp and the returned storage is accepted by CheckMinerMatch of the node and of another validator's instance, and the storage names the slot of the timestamp; the same question for xpoa instances (ProcessBeforeMiner before and after CompeteMaster said producer, every ms of 3 terms, "+
+			"cross-checked with CheckMinerMatch of the node and of another validator); (c) single: proposer x public key x signature x id relation x timestamp matrix; (d) pow: IsProofed around every target word, CheckMinerMatch on stub "+
 			"chains (default region, keep, adjust with spans at/around both clamps, after adjustment, hardest-target clamp; id at target / +-1, timestamp vs parent, wrong words, "+
 			"bad signatures) against an independent Bitcoin-style rule, GetCompact / SetCompact for 256 exponents x boundary mantissas + random words / numbers against an "+
 			"independent codec. A case = one configuration (a, b), one matrix cell (c), one chain scenario (d); non-trivial = more than one slot per term / both accept and refuse seen")
@@ -37,6 +42,10 @@ func main() {
 		r.Finish()
 	}()
 	step := func(name string, f func()) {
+		// development aid: VERIF_C16_ONLY=<part> runs one part (the floors of the others then make the run inconclusive)
+		if only := os.Getenv("VERIF_C16_ONLY"); only != "" && only != name {
+			return
+		}
 		t := time.Now()
 		func() {
 			defer func() {
@@ -49,6 +58,7 @@ func main() {
 		fmt.Fprintf(os.Stderr, "c16: %-10s %6.1fs  violations so far %d\n", name, time.Since(t).Seconds(), r.NumViolations())
 	}
 	step("tdpos", func() { runTdpos(r) })
+	step("own-block", func() { runOwnBlock(r) })
 	step("elections", func() { runElections(r) })
 	step("xpoa", func() { runXpoa(r) })
 	step("single", func() { runSingle(r) })
@@ -85,6 +95,20 @@ func main() {
 	r.Floor("tdpos.election.read-fault.hit|vote-record", 500)
 	r.Floor("tdpos.election.read-fault.hit|create-snapshot", 200)
 	r.Floor("tdpos.election.read-fault.entitled-refused-during-fault", 1000)
+	r.Floor("tdpos.own-block.cases", 36)
+	r.Floor("tdpos.own-block.cases|node-was-producer", 24)
+	r.Floor("tdpos.own-block.cases|asked-again-after-the-hand-over", 6)
+	r.Floor("tdpos.own-block.cases|asked-again-in-a-later-term", 4)
+	r.Floor("tdpos.own-block.compete-master.said-producer", 30)
+	r.Floor("tdpos.own-block.granted|own-slot|after-compete-master-said-producer", 2000)
+	r.Floor("tdpos.own-block.refused|slot-of-another-producer-in-the-node's-term|after-compete-master-said-producer", 5000)
+	r.Floor("tdpos.own-block.refused|nobody-entitled-in-the-node's-term", 200)
+	r.Floor("tdpos.own-block.refused|own-slot-in-another-term", 5000)
+	r.Floor("tdpos.own-block.cross-check.granted-block-accepted-by-peer-and-self", 2000)
+	r.Floor("xpoa.own-block.cases", 8)
+	r.Floor("xpoa.own-block.cases|node-was-producer", 6)
+	r.Floor("xpoa.own-block.probes|own-slot", 1000)
+	r.Floor("xpoa.own-block.probes|slot-of-another-validator", 2000)
 	r.Floor("xpoa.tiling.configs", 96)
 	r.Floor("xpoa.accept.configs|init", 90)
 	r.Floor("xpoa.accept.configs|edited", 40)
@@ -111,7 +135,8 @@ func main() {
 	r.Exhaustive(false)
 	r.Assume("timestamps before the configured tdpos init timestamp are outside the audited domain (the schedule is undefined there; see counter tdpos.observed.*)")
 	r.Assume("validator sets are supplied by stub ledgers: initial list (tdpos, xpoa) and a contract-edited list read from a snapshot (xpoa), nominate / vote records served by the stub snapshot reader (tdpos elections; the records are generated in the form the $tdpos contract writes them, the contract calls themselves belong to C19); the records are the same at every height >= 1 of a scenario, so the oracle does not depend on which height's snapshot an election reads")
-	r.Assume("the producing side of tdpos (CompeteMaster) reads the wall clock and is not driven; the validator list a freshly created instance reports (GetCurrentValidatorsInfo) stands for it")
+	r.Assume("the producing side of tdpos is driven on instances with the initial validator set only (part b3: CompeteMaster reads the wall clock, the configured initial timestamp places 'now' inside a chosen slot; no verdict depends on where it really landed); for elected sets the validator list a freshly created instance reports (GetCurrentValidatorsInfo) stands for it; Miner.mining as a whole (it broadcasts) is not run")
+	r.Assume("xpoa's own-block path (part b3, 12 generated configurations, CompeteMaster repeated until the node is the producer): its ProcessBeforeMiner has no slot guard - the open finding schedule|xpoa|own-block-path-has-no-slot-guard; every other discrepancy of that path has its own signature")
 	r.Assume("expectedPeriod of pow is in seconds (as in the shipped genesis files), block timestamps are whole seconds plus a common sub-second offset")
 	r.Assume("numbers that have no compact word (size byte would exceed 255) are outside the domain of GetCompact")
 	r.Assume("chained-bft justification checks of xpos / xpoa+bft blocks are C14's subject; the instances here run without bft_config")
